@@ -377,7 +377,7 @@ func fullParen(n jast.Node) jast.Node {
 
 var c04Ops = []string{".", "[]", "()", "{}", "*", "/", "%", "+", "-", "&", "=", "!=", "<", "<=", ">", ">=", "in", "^", "~>", "and", "or", "?:", ":="}
 
-const c04LeafKinds = 10
+const c04LeafKinds = 13
 
 func c04Leaf(k int) jast.Node {
 	switch k % c04LeafKinds {
@@ -391,6 +391,12 @@ func c04Leaf(k int) jast.Node {
 		return &jast.Wild{}
 	case 9:
 		return &jast.Desc{}
+	case 12:
+		return &jast.Neg{X: &jast.Name{V: "n"}}
+	case 10:
+		return &jast.Lambda{Params: []string{"p"}, Body: &jast.Var{Name: "p"}}
+	case 11:
+		return &jast.Transform{Pattern: &jast.Name{V: "t"}, Update: &jast.Object{Pairs: [][2]jast.Node{{&jast.Str{V: "u"}, &jast.Num{V: 1}}}}}
 	}
 	switch k % c04LeafKinds {
 	case 0:
@@ -649,10 +655,10 @@ func init() {
 	n3 := k * k * k * 5
 	fw.Register(&fw.Prop{
 		ID: "C04", Title: "The parse is fixed by JSONata precedence, associativity and parentheses",
-		Rule: fmt.Sprintf("cases: (a) exhaustive: every ordered pair of the 23 infix/postfix operators (. [ ] ( ) { } * / %% + - & = != < <= > >= in ^( ) ~> and or ?: :=) in both bracketings, with each of the three operand positions holding each of the 10 operand kinds (name, variable, number, string, call, the bare words and/or/in, *, **) (%d trees) and every ordered triple in all five bracketings (%d trees), operands rotating over the 10 operand kinds; each tree is printed with minimal parentheses (decided by the harness's own precedence table), with spaces and single quotes, fully parenthesised and with random whitespace, and each text must parse to the tree's structure; ", n2, n3) +
+		Rule: fmt.Sprintf("cases: (a) exhaustive: every ordered pair of the 23 infix/postfix operators (. [ ] ( ) { } * / %% + - & = != < <= > >= in ^( ) ~> and or ?: :=) in both bracketings, with each of the three operand positions holding each of the 13 operand kinds (name, variable, number, string, call, the bare words and/or/in, *, **, a lambda, a transform, a negated name) (%d trees) and every ordered triple in all five bracketings (%d trees), operands rotating over the 13 operand kinds; each tree is printed with minimal parentheses (decided by the harness's own precedence table), with spaces and single quotes, fully parenthesised and with random whitespace, and each text must parse to the tree's structure; ", n2, n3) +
 			"(b) 34 fixed probes: '/' as division vs regex, and/or/in as field names, right-associative := and else-branch, equal-precedence grouping, and the four structural errors; (c) PRNG-generated trees of 4..8 operators; (d) arithmetic/comparison/boolean chains evaluated minimally and fully parenthesised against the reference model. " +
 			"Oracle: canonical S-expression of the exported AST (single-expression blocks stripped, nested paths spliced, stacked predicates merged) vs the canonical form of the generating tree. non-trivial = every case; distinct by program text",
-		Assumptions: []string{"prefix minus is not a chain operator (the statement does not rank it)", "a regex literal directly after an opening bracket is not generated (port and jsonata-js lex '/' as division there)"},
+		Assumptions: []string{"prefix minus is an operand form, not a chain operator; it binds tighter than * / % and looser than . (the statement does not rank it; this is the reference implementation's and the repaired port's rule)", "a regex literal directly after an opening bracket is not generated (port and jsonata-js lex '/' as division there)"},
 		Plan: func(tier string, seed uint64) *fw.Plan {
 			nRand := int64(20000)
 			if tier == "thorough" {
